@@ -1,15 +1,7 @@
 SPECIFICATION Spec
 CONSTANTS
   Dev = "server-first-pref"
-  MaxOps = 0
-  Acts = {}
-  CloseBodies = {}
-  Payloads = {}
-  DataKinds = {}
-  ReadModes = {}
-  HandlerSets <- HDefault
-  Limits = {0}
-  Zs = {FALSE}
+  Configs <- ConfigsNeg
   NegSet <- NegAll
 INVARIANTS ServerSelectsOffered
 CHECK_DEADLOCK FALSE
